@@ -989,7 +989,7 @@ func CheckC17(tier string, seed uint64) int {
 	}
 	nHist, maxOps, batch := 4000, 60, 50
 	if tier == "thorough" {
-		nHist, maxOps, batch = 400000, 300, 100
+		nHist, maxOps, batch = 120000, 300, 100
 	}
 	hs := make([]*History, nHist)
 	for i := range hs {
